@@ -244,7 +244,9 @@ let clauses_iter h (impl : string) : (string * bool) list =
     [ ("no_panic", true);
       ("iter_spec", exp_changes = Some (get ih "changes"));
       ("slices_spec", exp_slices = Some (get ih "slices"));
-      ("recap_id", get ih "recap" = fmt_ops ops) ]
+      ("recap_id", get ih "recap" = fmt_ops ops);
+      (* whole-list iteration = concatenation of per-op expansions, for ANY op list *)
+      ("all_changes_concat", get ih "all_same" = "1") ]
 
 let clauses_group h (impl : string) : (string * bool) list =
   if impl = "PANIC" || impl = "TIMEOUT" then [ ("no_panic", false) ]
